@@ -141,6 +141,10 @@ Proof. intros ty d H. destruct ty; try discriminate; destruct d; reflexivity. Qe
 Lemma sql_is_nonnull : forall d, d <> DNull -> is_tt (sql_is d DNull) = false.
 Proof. intros d H. destruct d; try reflexivity. contradiction. Qed.
 
+Lemma valuer_ptr_scalar : forall bt v i a, scalar_typed bt v = true ->
+  valuer i (GPtr a v) = if i && is_zero v then DNull else base_dval v.
+Proof. intros bt v i a H. destruct bt, v; simpl in H; try discriminate; reflexivity. Qed.
+
 (** The three shapes of an exactly typed filter value. *)
 Inductive fv_shape (bt : gty) (inull : bool) : goval -> Prop :=
 | ShNil : forall fv, coerce fv = GNil -> valuer inull fv = DNull -> inull = false -> is_bytes_ty bt = false -> fv_shape bt inull fv
@@ -184,7 +188,7 @@ Proof.
     + cbn [field_value coerce hashable].
       inversion Hsh as [fv' Hc Hv _ _|a v Hv _|v Hv]; subst.
       * rewrite Hc, Hv. reflexivity.
-      * cbn [coerce valuer]. rewrite (proj1 (scalar_not_nil _ _ Hv)).
+      * cbn [coerce]. rewrite (valuer_ptr_scalar _ _ _ _ Hv). cbn [andb]. rewrite (proj1 (scalar_not_nil _ _ Hv)).
         rewrite atom_nonnull by (eapply base_dval_nonnull; exact Hv). reflexivity.
       * destruct (valuer_scalar _ _ false Hv) as [Hval Hco]. rewrite Hval, Hco. cbn [andb].
         rewrite (proj1 (scalar_not_nil _ _ Hv)).
@@ -193,7 +197,7 @@ Proof.
       rewrite Hf.
       inversion Hsh as [fv' Hc Hv _ _|a v Hv _|v Hv]; subst.
       * rewrite Hc, Hv. cbn [hashable atom_value]. rewrite (field_not_nil _ _ Hbt). rewrite sql_is_nonnull by exact Hdn. reflexivity.
-      * cbn [coerce valuer]. rewrite atom_nonnull by (eapply base_dval_nonnull; exact Hv). apply S1; assumption.
+      * cbn [coerce]. rewrite (valuer_ptr_scalar _ _ _ _ Hv). cbn [andb]. rewrite atom_nonnull by (eapply base_dval_nonnull; exact Hv). apply S1; assumption.
       * destruct (valuer_scalar _ _ false Hv) as [Hval Hco]. rewrite Hval, Hco. cbn [andb].
         rewrite atom_nonnull by (eapply base_dval_nonnull; exact Hv). apply S1; assumption.
   - (* non-pointer column *)
@@ -207,7 +211,7 @@ Proof.
     destruct Hd as [[-> Hnull]|(Hdn & Hcls & Hzero)].
     + inversion Hsh as [fv' Hc Hv Hi Hb|a v Hv Hz|v Hv]; subst.
       * destruct Hnull as [Hn|[Hn _]]; [discriminate|]. rewrite Hn in Hb. discriminate.
-      * cbn [coerce valuer]. rewrite (S0 _ _ Hv).
+      * cbn [coerce]. rewrite (valuer_ptr_scalar _ _ _ _ Hv), Hz. rewrite (S0 _ _ Hv).
         assert (Hnz : is_zero v = false).
         { destruct Hnull as [->|[Hn _]]; [exact Hz|exact (bytes_not_zero _ _ Hn Hv)]. }
         rewrite Hnz. rewrite atom_nonnull by (eapply base_dval_nonnull; exact Hv). reflexivity.
@@ -219,7 +223,7 @@ Proof.
            rewrite atom_nonnull by (eapply base_dval_nonnull; exact Hv). reflexivity.
     + inversion Hsh as [fv' Hc Hv Hi Hb|a v Hv Hz|v Hv]; subst.
       * rewrite Hc, Hv. cbn [hashable atom_value]. rewrite (field_not_nil _ _ Hnp). rewrite sql_is_nonnull by exact Hdn. reflexivity.
-      * cbn [coerce valuer]. rewrite atom_nonnull by (eapply base_dval_nonnull; exact Hv). apply S1; assumption.
+      * cbn [coerce]. rewrite (valuer_ptr_scalar _ _ _ _ Hv), Hz. rewrite atom_nonnull by (eapply base_dval_nonnull; exact Hv). apply S1; assumption.
       * destruct (valuer_scalar _ _ inull Hv) as [Hval Hco]. rewrite Hval, Hco.
         rewrite (S1 _ _ _ Hv Hcls).
         destruct (inull && is_zero fv) eqn:Ez.
